@@ -325,9 +325,9 @@ def r7(R):
         R.instance('DB.open: %s' % ' '.join(ast.unparse(t.test).split())[:70])
         # a comparison whose one side IS the last transaction (not a value
         # computed from it) -- as a conjunct of the refusing test
-        conj = t.test.values if isinstance(t.test, ast.BoolOp) and \
-            isinstance(t.test.op, ast.And) else [t.test]
-        for c in conj:
+        # (anywhere in the test, whatever its spelling: a conjunction, or
+        # the negated disjunction De Morgan makes of it)
+        for c in ast.walk(t.test):
             if isinstance(c, ast.Compare) and len(c.ops) == 1 and any(
                     isinstance(s_, ast.Call) and dotted(s_.func) and
                     dotted(s_.func)[-1] == 'lastTransaction' and
